@@ -483,6 +483,11 @@ def hostile_ods_documents(report):
         cases.append(("text:s with text:c=%s" % count, odslib.content_xml([blanks])))
     for depth in (600, 1200, 5000):
         cases.append(("cell text nested in %d text:span elements" % depth, nested(depth)))
+    # every single count is one a spreadsheet can have; together they describe a row, or a text, of billions of items
+    wide = [{"rep": 1, "cells": [{"rep": 1048576, "paras": [[{"k": "raw", "text": "a"}]] if index % 2 else []} for index in range(5000)]}]
+    cases.append(("5000 cells in one row, each with table:number-columns-repeated=1048576", odslib.content_xml([wide])))
+    long_text = [{"rep": 1, "cells": [{"rep": 1, "paras": [[{"k": "markup", "xml": '<text:s text:c="1048576"/>' * 5000}]]}]}]
+    cases.append(("5000 text:s elements in one cell, each with text:c=1048576", odslib.content_xml([long_text])))
     cid = cutplace.Cid()
     cid.read("cid", [["D", "Format", "ods"], ["F", "a", "", "X"], ["F", "b", "", "X"]])
     try:
